@@ -8,9 +8,14 @@ export GOFLAGS=-mod=mod GOPROXY=off
 run() {
   if [ "$KIND" = standalone ]; then
     rm -rf /tmp/demo-$NAME; cp -r $OUT/demo /tmp/demo-$NAME
-    grep -rlE "/tmp/mut2?-[A-Za-z0-9]+" /tmp/demo-$NAME | xargs -r sed -i -E "s#/tmp/mut2?-[A-Za-z0-9]+-out/demo#/tmp/demo-$NAME#g; s#/tmp/mut2?-[A-Za-z0-9]+#$WT#g"
+    grep -rlE "/tmp/mut[0-9]*-[A-Za-z0-9]+" /tmp/demo-$NAME | xargs -r sed -i -E "s#/tmp/mut[0-9]*-[A-Za-z0-9]+-out/demo#/tmp/demo-$NAME#g; s#/tmp/mut[0-9]*-[A-Za-z0-9]+#$WT#g"
     cp $WT/go.sum /tmp/demo-$NAME/go.sum
-    (cd /tmp/demo-$NAME && timeout 1500 go run . 2>&1 | tail -3; echo "exit=$?")
+    # arguments / environment / -race of the recorded demo command
+    DC=$(python3 -c "import json;print(json.load(open('$OUT/meta.json')).get('demo_cmd',''))" 2>/dev/null)
+    ARGS=$(echo "$DC" | sed -n -E 's#.*go run( -race)? \.( |$)(.*)#\3#p' | sed -E "s#/tmp/mut[0-9]*-[A-Za-z0-9]+#$WT#g; s#[;&|].*##")
+    RACE=""; echo "$DC" | grep -q "go run -race" && RACE="-race"
+    TZV=$(echo "$DC" | grep -oE "TZ=[A-Za-z_/]+" | head -1)
+    (cd /tmp/demo-$NAME && env $TZV timeout 1500 go run $RACE . $ARGS 2>&1 | tail -3; echo "exit=$?")
   else
     cp $OUT/demo/*_test.go $WT/$PKG/
     (cd $WT && timeout 1500 go test $GOTESTFLAGS -vet=off -count=1 -run "$RX" ./$PKG/ 2>&1 | tail -3)
